@@ -17,4 +17,6 @@ def run(rep, fb, tier):
     methodrules.rule_forth_output_alias(rep, fb)
     forth.rule_forth_input(rep, fb)
     forth.rule_forth_width(rep, fb)
+    from ..rules import lints
+    lints.rule_bit_accumulator_reset(rep, fb)
     rep.units = fb.units
